@@ -97,7 +97,7 @@ func cmdFn(repo string, args []string) int {
 		dir = os.Getenv("GOVC_KEEP")
 		os.MkdirAll(dir, 0o755)
 	}
-	vc.discharge(dir, 10, false)
+	vc.discharge(dir, 20, false)
 	bad := 0
 	for _, o := range vc.obls {
 		if o.Aux {
@@ -188,7 +188,7 @@ func cmdCheck(repo, prop, tier string) int {
 		return 2
 	}
 	thorough := tier == "thorough"
-	timeout := 10
+	timeout := 20
 	if thorough {
 		timeout = 60
 	}
@@ -364,7 +364,7 @@ func report(p *Program, prop, tier string, seed int, results []*fnResult, missin
 		"violations": len(violations),
 		"coverage": map[string]interface{}{
 			"obligations": total, "discharged": discharged,
-			"checker_cmd":  fmt.Sprintf("bin/govc check %s %s  (queries: z3-new 5.1.0 / z3 4.8.12 / cvc5 1.0.3 portfolio, timeout per query %s)", prop, tier, map[bool]string{true: "60 s", false: "10 s"}[tier == "thorough"]),
+			"checker_cmd":  fmt.Sprintf("bin/govc check %s %s  (queries: z3-new 5.1.0 / z3 4.8.12 / cvc5 1.0.3 portfolio, CPU-time limit per query and solver %s)", prop, tier, map[bool]string{true: "60 s", false: "20 s"}[tier == "thorough"]),
 			"trusted_base": keysOf(assumed),
 			"functions_under_contract": fns,
 			"obligations_by_kind":      byKind,
